@@ -36,6 +36,7 @@ CONSTANTS MaxOps,      \* identifier-allocating requests (publish q>0, subscribe
           MaxFail,     \* acknowledgements with a failure code + stale acknowledgements
           MaxQ0,       \* QoS 0 publishes
           Kinds,       \* kinds of identifier-allocating requests explored ("P1", "P2", "SUB", "UNS")
+          Parts,       \* {TRUE, FALSE}: transport writes may be partial; {FALSE}: always complete
           MaxCancel,   \* dropped futures
           MaxFault,    \* transport faults
           Dev,         \* enabled deviations
@@ -342,7 +343,16 @@ BrokerGets(bb, what) ==
     [] what[1] = "PUBCOMP" -> [bb EXCEPT !.inq = {x \in @ : ~(x.id = what[2] /\ x.q = 2 /\ x.ph = "rel")}]
     [] OTHER -> bb
 
-Log(a, p) == IF Record THEN Append(hist, [a |-> a, p |-> p]) ELSE hist
+\* projection of the client state compared with the real session after every call boundary
+Proj(cl) ==
+  [pc |-> cl.pc.t, last |-> cl.last, live |-> cl.live, up |-> cl.up, sp |-> cl.sp, gen |-> cl.gen,
+   nid |-> cl.nid, quota |-> cl.quota, maxq |-> cl.maxq, sids |-> cl.sids,
+   ret |-> [i \in 1..Len(cl.ret) |-> << cl.ret[i].id, cl.ret[i].k, cl.ret[i].st, cl.ret[i].w, cl.ret[i].dup >>],
+   rel |-> [i \in 1..Len(cl.rel) |-> << cl.rel[i].id, cl.rel[i].st, cl.rel[i].w >>],
+   ctl |-> [i \in 1..Len(cl.ctl) |-> << cl.ctl[i].a, cl.ctl[i].id, cl.ctl[i].rc, cl.ctl[i].st, cl.ctl[i].w >>]]
+\* client steps (c' is determined before hist' in every action) and pure environment steps
+Log(a, p) == IF Record THEN Append(hist, [a |-> a, p |-> p, s |-> Proj(c')]) ELSE hist
+LogB(a, p) == IF Record THEN Append(hist, [a |-> a, p |-> p, s |-> Proj(c)]) ELSE hist
 
 \* ---- application ---------------------------------------------------------
 
@@ -444,14 +454,13 @@ AckConsistent(p) ==
 LoseInconsistent ==
   /\ n.b2c # << >> /\ ~AckConsistent(Head(n.b2c))
   /\ n' = [n EXCEPT !.b2c = Tail(@)]
-  /\ hist' = Log("lose", << >>)
+  /\ hist' = LogB("lose", << >>)
   /\ UNCHANGED << c, b, o >>
 
 \* poll / recv: the next packet from the broker has been read completely
-IoRead ==
-  /\ c.pc.t = "ar" /\ n.b2c # << >> /\ AckConsistent(Head(n.b2c))
-  /\ LET p == Head(n.b2c) IN
-     /\ c' = AfterPacket(c, c.pc.op, p)
+IoRead(p) ==
+  /\ c.pc.t = "ar" /\ n.b2c # << >> /\ p = Head(n.b2c) /\ AckConsistent(p)
+  /\ /\ c' = AfterPacket(c, c.pc.op, p)
      /\ n' = [n EXCEPT !.b2c = Tail(@)]
      /\ o' = Track(Consumed(o, p), c')
      /\ hist' = Log("r", p)
@@ -499,6 +508,8 @@ ConnAck(sp, rm) ==
      /\ c' = ConnAckIn(c, p)
      /\ hist' = Log("r", p)
      /\ b' = [b EXCEPT !.sess = TRUE, !.rm = rm,
+                       \* exchanges past PUBREC stay unresolved on a resumed connection
+                       !.un = IF sp THEN b.q2 ELSE {},
                        !.q2 = IF sp THEN @ ELSE {}, !.inq = IF sp THEN @ ELSE {},
                        !.over = FALSE, !.overreplay = FALSE]
      /\ o' = Track(IF sp THEN o ELSE [o EXCEPT !.epoch = @ + 1], c')
@@ -581,7 +592,7 @@ BrokerAck(x, fail) ==
                           !.un = IF x[1] = "P1" \/ x[1] = "PUBREL" \/ (x[1] = "P2" /\ fail) THEN @ \ {x[2]} ELSE @,
                           !.q2 = IF x[1] = "P2" /\ ~fail THEN @ \cup {x[2]}
                                  ELSE IF x[1] = "PUBREL" THEN @ \ {x[2]} ELSE @]
-  /\ hist' = Log("b", << x, fail >>)
+  /\ hist' = LogB("b", << x, fail >>)
   /\ UNCHANGED << c, o >>
 
 \* an acknowledgement for an identifier that is not in use (stale / duplicate)
@@ -590,7 +601,7 @@ BrokerStale(t, id) ==
   /\ ~InUse(c, id) /\ \A x \in b.got : x[2] # id
   /\ Send([t |-> t, id |-> id, rc |-> 0, stale |-> TRUE])
   /\ b' = [b EXCEPT !.fails = @ + 1]
-  /\ hist' = Log("b", << t, id >>)
+  /\ hist' = LogB("b", << t, id >>)
   /\ UNCHANGED << c, o >>
 
 \* broker-initiated traffic: PUBLISH at any QoS with an identifier not in flight, PUBREL after
@@ -600,35 +611,35 @@ BrokerPublish(q, id) ==
   /\ q > 0 => \A x \in b.inq : x.id # id
   /\ Send([t |-> "PUBLISH", q |-> q, id |-> IF q = 0 THEN 0 ELSE id, rc |-> 0])
   /\ b' = [b EXCEPT !.nin = @ + 1, !.inq = IF q = 0 THEN @ ELSE @ \cup {[id |-> id, q |-> q, ph |-> "pub"]}]
-  /\ hist' = Log("b", << "PUBLISH", q, id >>)
+  /\ hist' = LogB("b", << "PUBLISH", q, id >>)
   /\ UNCHANGED << c, o >>
 
 BrokerRelease(x) ==
   /\ Connected /\ x \in b.inq /\ x.q = 2 /\ x.ph = "rec" /\ Len(n.b2c) < 2
   /\ Send([t |-> "PUBREL", id |-> x.id, rc |-> 0])
   /\ b' = [b EXCEPT !.inq = (@ \ {x}) \cup {[x EXCEPT !.ph = "rel"]}]
-  /\ hist' = Log("b", << "PUBREL", x.id >>)
+  /\ hist' = LogB("b", << "PUBREL", x.id >>)
   /\ UNCHANGED << c, o >>
 
 BrokerRetransmit(x) ==
   /\ Connected /\ x \in b.inq /\ x.q = 2 /\ x.ph = "pub" /\ b.nin < MaxIn /\ Len(n.b2c) < 2
   /\ Send([t |-> "PUBLISH", q |-> 2, id |-> x.id, rc |-> 0])
   /\ b' = [b EXCEPT !.nin = @ + 1]
-  /\ hist' = Log("b", << "PUBLISH", 2, x.id >>)
+  /\ hist' = LogB("b", << "PUBLISH", 2, x.id >>)
   /\ UNCHANGED << c, o >>
 
 BrokerDisconnect ==
   /\ Connected /\ b.fails < MaxFail /\ Len(n.b2c) < 2
   /\ Send([t |-> "DISCONNECT", id |-> 0, rc |-> 0])
   /\ b' = [b EXCEPT !.fails = @ + 1]
-  /\ hist' = Log("b", << "DISCONNECT" >>)
+  /\ hist' = LogB("b", << "DISCONNECT" >>)
   /\ UNCHANGED << c, o >>
 
 \* the broker forgets the session while the client is away
 SessionLoss ==
   /\ NoHandle /\ b.sess /\ b.fails < MaxFail
   /\ b' = [b EXCEPT !.sess = FALSE, !.fails = @ + 1]
-  /\ hist' = Log("sessionloss", << >>)
+  /\ hist' = LogB("sessionloss", << >>)
   /\ UNCHANGED << c, n, o >>
 
 ---------------------------------------------------------------------------
@@ -650,27 +661,42 @@ Init ==
   /\ hist = << >>
 
 Ids == 1..IdMax
+StaleIds == 1..(IF IdMax < 3 THEN IdMax ELSE 3)
 
 Next ==
   \/ AppConnect
   \/ \E k \in Kinds \cap {"P1", "P2"} : AppPublish(k)
   \/ \E k \in Kinds \cap {"SUB", "UNS"} : AppSubscribe(k)
-  \/ AppPublish0 \/ AppPoll \/ AppRecv \/ AppDrive \/ AppDisconnect
-  \/ Cancel \/ DropHandle
-  \/ \E part \in BOOLEAN : IoWrite(part) \/ ConnWrite(part) \/ DiscWrite(part) \/ Q0Write(part)
+  \/ AppPublish0
+  \/ AppPoll
+  \/ AppRecv
+  \/ AppDrive
+  \/ AppDisconnect
+  \/ Cancel
+  \/ DropHandle
+  \/ \E part \in Parts : IoWrite(part)
+  \/ \E part \in Parts : ConnWrite(part)
+  \/ \E part \in Parts : DiscWrite(part)
+  \/ \E part \in Parts : Q0Write(part)
   \/ \E ok \in BOOLEAN : Q0Flush(ok)
   \/ Q0WriteFail
-  \/ IoFlush \/ IoFail \/ IoRead \/ LoseInconsistent \/ \E kind \in {"eof", "rerr"} : IoReadFail(kind)
-  \/ ConnFlush \/ ConnFail
-  \/ \E sp \in BOOLEAN, rm \in RMs : ConnAck(sp, rm)
+  \/ IoFlush
+  \/ IoFail
+  \/ \E p \in Range(n.b2c) : IoRead(p)
+  \/ LoseInconsistent
+  \/ \E kind \in {"eof", "rerr"} : IoReadFail(kind)
+  \/ ConnFlush
+  \/ ConnFail
+  \/ \E sp \in BOOLEAN : \E rm \in RMs : ConnAck(sp, rm)
   \/ ConnOther([t |-> "CONNACK", sp |-> FALSE, rc |-> 135, rm |-> 0])
   \/ ConnOther([t |-> "PUBACK", id |-> 1, rc |-> 0])
   \/ \E ok \in BOOLEAN : DiscFlush(ok)
   \/ DiscWriteFail
-  \/ \E x \in b.got, fail \in BOOLEAN : BrokerAck(x, fail)
-  \/ \E t \in {"PUBACK", "PUBREC", "PUBCOMP", "SUBACK"}, id \in Ids : BrokerStale(t, id)
-  \/ \E q \in 0..2, id \in 1..MaxIn : BrokerPublish(q, id)
-  \/ \E x \in b.inq : BrokerRelease(x) \/ BrokerRetransmit(x)
+  \/ \E x \in b.got : \E fail \in BOOLEAN : BrokerAck(x, fail)
+  \/ \E t \in {"PUBACK", "PUBREC", "PUBCOMP", "SUBACK"} : \E id \in StaleIds : BrokerStale(t, id)
+  \/ \E q \in 0..2 : \E id \in 1..MaxIn : BrokerPublish(q, id)
+  \/ \E x \in b.inq : BrokerRelease(x)
+  \/ \E x \in b.inq : BrokerRetransmit(x)
   \/ BrokerDisconnect
   \/ SessionLoss
 
